@@ -31,3 +31,9 @@ package structs
 //@   props C02
 //@   bounded structs/joinrequest_test.go Test_Bounded_JoinRequest blocks {0,1}, columns {a,b}, every pair of requests (25 x 25) and both operators (1250 inputs): blocks = intersection (AND) / union (OR), per block the union of the columns that passed the micro-index check
 //@ end
+
+// counters of the in-memory segment store summary: frame only
+//@ func (*AllSegStoreSummary).DecrementTotalSegKeyCount
+//@   assumed
+//@   modifies fieldsof(AllSegStoreSummary)
+//@ end
